@@ -33,6 +33,10 @@ def styled(name, style):
             "mixed": "D:\\DATA/synthetic.b\\sub/" + name}[style]
 
 
+def digits(name):
+    return int("".join(c for c in name if c in "0123456789") or "-1")
+
+
 def f64(t):
     return struct.unpack("<d", struct.pack("<q", int(t)))[0]
 
@@ -45,7 +49,7 @@ def qtok(j):
 class C02(Prop):
     id = "C02"
     anchored = ["src/pewlib/io/agilent.py"]
-    cases = {"quick": 220, "thorough": 5000}
+    cases = {"quick": 800, "thorough": 30000}
     rule = ("synthetic .b batches: 1..5 lines, 2..6 scans, 1..4 masses, MS / MS with XAddition / MS_MS, every subset of "
             "{BatchLog.xml, BatchLog.csv, AcqMethod.xml, MSTS_XAddition.xml}, data-file names of mixed digit widths and prefixes, "
             "shuffled directory listing, logs with Fail / repeated Pass / unlogged directories / logged-but-missing files, four path "
@@ -123,8 +127,10 @@ class C02(Prop):
         for i, (nm, mz) in enumerate(elems):
             pre, pro = mz, mz
             if msms:
-                pro = mz + rng.choice([0, 0, 16, 16, 32])
+                pro = mz + rng.choice([0, 0, 16, 16, 32, 48, 64, 100])
             masses.append({"name": nm, "pre": pre, "pro": pro, "acctime": rng.choice(ACCTIMES)})
+        if msms and k >= 2 and rng.random() < 0.4:  # product order differs from precursor order
+            masses[0]["pro"] = masses[-1]["pre"] + rng.choice([16, 100])
         if msms:  # method order: ascending (product, precursor)
             masses.sort(key=lambda m: (m["pro"], m["pre"]))
             if len({(m["pro"], m["pre"]) for m in masses}) < k:
@@ -235,6 +241,10 @@ class C02(Prop):
             listing.append({"name": "BatchLog.csv", "dir": False})
         if rng.random() < 0.15:
             listing.append({"name": rng.choice(["notes.txt", "5.d.bak", "77.dat", "readme"]), "dir": rng.random() < 0.5})
+        if rng.random() < 0.12:  # a plain file that looks like a data directory
+            nm = rng.choice(["88888.d", "0.D", "tmp55555.d"])
+            if all(e["name"] != nm for e in listing) and all(digits(nm) != digits(f["name"]) for f in files):
+                listing.append({"name": nm, "dir": False})
         rng.shuffle(listing)
         nm_methods = pick("methods", None) or rng.choice([["batch_xml", "batch_csv"], ["batch_xml", "batch_csv"], ["batch_csv", "batch_xml"],
                                  ["batch_xml", "batch_csv", "acq_method_xml", "alphabetical"], ["acq_method_xml", "alphabetical"],
@@ -410,6 +420,8 @@ class C02(Prop):
         if ref is None or impl_st is None:
             return True
         q = unrat(ref)
+        if not math.isfinite(float(impl_st)):
+            return False
         return abs(Fraction(float(impl_st)) - q) <= Fraction(1, 20000) + Fraction(1, 10 ** 9)
 
     # ------------------------------------------------------------------ evaluation
